@@ -327,17 +327,28 @@ fn expand(
                         }
                     });
 
+                    let mut concat_error = None;
                     visit_mut_all_lists(&mut expanded_template, &mut |expr: &mut SExpr| {
                         *expr = match expr {
                             // Below should not be reached because only lists should be visited
                             SExpr::Atom(_) => unreachable!(),
-                            SExpr::List(l) => parse_list_var(l, &HashMap::default()),
+                            SExpr::List(l) => match parse_list_var(l, &HashMap::default()) {
+                                Ok(parsed) => parsed,
+                                Err(e) => {
+                                    concat_error.get_or_insert(e);
+                                    // Not a change: the visit must not be repeated.
+                                    return false;
+                                }
+                            },
                         };
                         match expr {
                             SExpr::Atom(_) => true,
                             SExpr::List(_) => false,
                         }
                     });
+                    if let Some(e) = concat_error {
+                        return Err(e);
+                    }
 
                     while evaluate_conditionals(&mut expanded_template)? {}
 
